@@ -915,6 +915,55 @@ fn gen_world(r: &mut Prng, idx: u64) -> Sc {
             _ => POp::Distribution,
         });
     }
+    // scripted multi-step histories spliced into the random ones: the interesting behaviours need several
+    // specific steps in a specific order, which independent random draws almost never produce
+    if idx % 3 == 0 {
+        let script: Vec<POp> = match (idx / 3) % 4 {
+            0 => vec![
+                POp::NewPssm { width: width(r), seed: r.next_u64(), bg: r.usize_below(6) },
+                POp::Distribution,
+                POp::TakeView { target: Target::Dist },
+                POp::RevComp,
+                POp::Distribution,
+                POp::TakeView { target: Target::Dist },
+                POp::TakeView { target: Target::Pssm },
+                POp::ReadView { which: r.next_u64() as usize },
+            ],
+            1 => vec![
+                POp::NewSeq { len: seq_len(r), seed: r.next_u64(), protein },
+                POp::NewMotif { width: r.range(2, 20), n: r.range(1, 6), seed: r.next_u64(), protein },
+                POp::Calculate,
+                POp::Copy { target: Target::Striped },
+                POp::TakeView { target: Target::Striped },
+                POp::NewMotif { width: r.range(34, 70), n: r.range(1, 6), seed: r.next_u64(), protein },
+                POp::Calculate,
+                POp::ReadView { which: r.next_u64() as usize },
+                POp::TakeView { target: Target::Scores },
+            ],
+            2 => vec![
+                POp::NewMotif { width: width(r), n: r.range(1, 6), seed: r.next_u64(), protein },
+                POp::Distribution,
+                POp::RevComp,
+                POp::Index { target: Target::Pssm, index: r.next_u64() as i64 >> 1 },
+                POp::Distribution,
+                POp::TakeView { target: Target::Dist },
+            ],
+            _ => vec![
+                POp::NewSeq { len: seq_len(r), seed: r.next_u64(), protein: false },
+                POp::NewPssm { width: r.range(2, 40), seed: r.next_u64(), bg: r.usize_below(6) },
+                POp::TakeView { target: Target::Striped },
+                POp::Scan { threshold_bits: 0f32.to_bits() },
+                POp::ReadView { which: 0 },
+                POp::Calculate,
+                POp::TakeView { target: Target::Scores },
+                POp::Index { target: Target::Scores, index: r.next_u64() as i64 >> 1 },
+            ],
+        };
+        let at = r.usize_below(ops.len() + 1);
+        for (k, op) in script.into_iter().enumerate() {
+            ops.insert(at + k, op);
+        }
+    }
     Sc { alloc, ops }
 }
 
